@@ -82,8 +82,15 @@ def version() -> str:  # pragma: no cover
 def get_source_lines(filepath: str) -> list[str]:
     # Only "\n" ends a line as far as line numbers are concerned ("\r\n" and "\r" have been
     # translated already). `str.splitlines()` would also split on form feeds, "\x85", etc.
-    with tokenize.open(filepath) as f:
-        return f.read().split("\n")
+    try:
+        with tokenize.open(filepath) as f:
+            return f.read().split("\n")
+
+    except SyntaxError:  # pragma: no cover
+        # Mypy is more lenient than `tokenize` about encoding declarations (ie, a BOM together with a
+        # non UTF-8 cookie, or a cookie in a file with lone "\r" line endings)
+        with open(filepath, encoding="utf-8", errors="replace") as f:
+            return f.read().split("\n")
 
 
 def is_ignored_via_comment(error: Error) -> bool:
